@@ -582,7 +582,44 @@ static int sweep_c11(int argc, char **argv) {
             }
         }
     }
+    /* sessions of different age: n mappers' sessions are recorded, one of them is refreshed half a minute later, another half
+     * minute later the periodic tick runs - the others have been idle for more than 60 s and leave the table, whichever slots
+     * they are in; then every mapper's Discover comes again under a changed sequence number */
+    unsigned long long age_cases = 0;
+    {
+        static const int ns3[] = {2, 3, 5, 16};
+        for (int ni = 0; ni < 4; ni++) for (int keep = 0; keep < ns3[ni]; keep += (ns3[ni] > 5 ? 5 : 1)) for (int ack = 0; ack < 2; ack++) {
+            int n = ns3[ni];
+            session_table *tab = session_table_create();
+            if (!tab) { viol("C11:setup", "session_table_create failed"); return 0; }
+            uint8_t mp[16][6];
+            for (int j = 0; j < n; j++) { uint8_t a6[6] = {2, 0x55, 0, 0, (uint8_t)n, (uint8_t)j}; memcpy(mp[j], a6, 6); session_table_add(tab, mp[j], GEN, XID); }
+            vp_now_ms += 30000;
+            session_table_add(tab, mp[keep], GEN, XID);
+            vp_now_ms += 31000;
+            automata_tick(NULL, NULL, tab, NULL);
+            for (int j = 0; j < n; j++) {
+                vp_fill_stream(buf, mtu, fseed + 13);
+                size_t o = mk_base(buf, BCAST, mp[j], 0, 0, BCAST, mp[j], (uint16_t)(XID + 1));
+                buf[o++] = GEN >> 8; buf[o++] = GEN & 255; buf[o++] = 0; buf[o++] = 1;
+                for (size_t i = 36; i < 200; i++) buf[i] = 0x80;
+                if (ack) memcpy(buf + 36, OWN, 6);
+                int r = derive_session_event(buf, tab, OWN);
+                int e = c11_expect(ack, j == keep);
+                cases++; age_cases++;
+                if (r != e) {
+                    char key[160];
+                    snprintf(key, sizeof(key), "C11:discover:wrong-event-after-sessions-of-different-age:%s", j == keep ? "refreshed-session-not-known" : "expired-session-still-known");
+                    viol(key, "%d sessions recorded, session %d refreshed 30 s later, tick 31 s after that; Discover of mapper %d under a changed sequence number (%s): "
+                         "derive_session_event=%d expected %d", n, keep, j, ack ? "acknowledging" : "not acknowledging", r, e);
+                    break;
+                } else nontriv++;
+            }
+            session_table_destroy(tab);
+        }
+    }
     stat_ull("cases", cases);
+    stat_ull("sessions_of_different_age_cases", age_cases);
     stat_ull("second_discover_cases", seq_cases);
     stat_ull("table_history_cases", hist_cases);
     stat_ull("clock_advanced_cases", clk_cases);
